@@ -42,6 +42,9 @@ pub mod squfof;
 pub mod classgroup;
 pub mod relationcls;
 
+// Verification hooks (compiled only with --cfg yamaquasi_verif).
+#[cfg(yamaquasi_verif)]
+pub mod verif;
 // Verification hooks (compiled only with --cfg yamaquasi_verif_loom).
 #[cfg(yamaquasi_verif_loom)]
 pub mod verif_shim;
